@@ -3,13 +3,13 @@
 # Confirms in a scratch worktree: suite passes with patch; demo fails with patch; demo passes without.
 d="$1"; wt="$2"
 cd "$wt" || exit 2
-git checkout -q -- . && git clean -qfd src
+git checkout -q -- . && git clean -qfd src tests
 run() { CARGO_NET_OFFLINE=true cargo test --offline 2>&1 | grep -E "^test result|FAILED|failed" | tr '\n' ' '; }
 git apply "$d/patch.diff" || { echo "PATCH-DOES-NOT-APPLY"; exit 1; }
 a=$(run); echo "with patch: $a"
 git apply "$d/demo.diff" || { echo "DEMO-DOES-NOT-APPLY"; }
 b=$(run); echo "with patch+demo: $b"
-git checkout -q -- . && git clean -qfd src
+git checkout -q -- . && git clean -qfd src tests
 git apply "$d/demo.diff"
 c=$(run); echo "demo only: $c"
-git checkout -q -- . && git clean -qfd src
+git checkout -q -- . && git clean -qfd src tests
